@@ -111,14 +111,30 @@ func atLocalTxs(journal []*mm.JournalEntry, tc []*faketc.Event, xid string, clas
 		if e.Dir == "in" && e.Msg.S("xid") == xid {
 			reqByID[e.ID] = e
 		}
+		// local transactions whose window contains the event; when several connections are inside a local transaction
+		// at that moment, a registration belongs to the one whose statements touched the rows its lock key names
+		var cands []*atLocalTx
 		for _, t := range out {
 			end := t.EndSeq
 			if end == 0 {
 				end = math.MaxInt64
 			}
-			if e.Seq < t.BeginSeq || e.Seq > end {
-				continue
+			if e.Seq >= t.BeginSeq && e.Seq <= end {
+				cands = append(cands, t)
 			}
+		}
+		if e.Dir == "in" && e.Msg.Type == wire.TBranchRegister && e.Msg.S("xid") == xid && len(cands) > 1 {
+			var named []*atLocalTx
+			for _, t := range cands {
+				if localTxTouches(t, e.Msg.S("lockKey")) {
+					named = append(named, t)
+				}
+			}
+			if len(named) > 0 {
+				cands = named
+			}
+		}
+		for _, t := range cands {
 			switch {
 			case e.Dir == "in" && e.Msg.Type == wire.TBranchRegister && e.Msg.S("xid") == xid:
 				t.Register = e
@@ -128,6 +144,37 @@ func atLocalTxs(journal []*mm.JournalEntry, tc []*faketc.Event, xid string, clas
 		}
 	}
 	return out
+}
+
+// localTxTouches: did a statement of this local transaction select a row that the lock key names? (journal keys are
+// type-prefixed components separated by NUL; lock keys join the components with '_')
+func localTxTouches(t *atLocalTx, lockKey string) bool {
+	entries := parseLockKey(lockKey)
+	for _, j := range t.Stmts {
+		for _, k := range j.Matched {
+			var comps []string
+			for _, c := range strings.Split(strings.TrimSuffix(k, "\x00"), "\x00") {
+				if len(c) > 0 {
+					comps = append(comps, strings.ToLower(c[1:]))
+				}
+			}
+			sort.Strings(comps)
+			for _, e := range entries {
+				if !strings.EqualFold(e.Table, j.Table) {
+					continue
+				}
+				got := make([]string, len(e.PK))
+				for i, p := range e.PK {
+					got[i] = strings.ToLower(p)
+				}
+				sort.Strings(got)
+				if strings.Join(got, "\x00") == strings.Join(comps, "\x00") {
+					return true
+				}
+			}
+		}
+	}
+	return false
 }
 
 // ---- lock keys ----
